@@ -142,3 +142,57 @@ def check_C10(tier: str, seed: int) -> int:
 @register("C17")
 def check_C17(tier: str, seed: int) -> int:
     return control_check("C17", tier, seed)
+
+
+def use_simple_layer(v: fw.Verdict, prop: str, layer: Dict[str, Any], layer_name: str, mon_props: List[str]) -> bool:
+    """function-level layers: findings are {id, kind, text, record}"""
+    corr_ok = True
+    for f in layer["findings"]:
+        replay = {"layer": layer_name, "record_id": f["id"], "messages": f["text"], "record": f.get("record"),
+                  "how_to_replay": f"./check {prop} --replay <this file> (re-runs the recorded case through the current /repo code and the model)"}
+        if f["kind"] == "mon":
+            for m in f["text"]:
+                if any(m.startswith(p + "/") for p in mon_props):
+                    v.violation(sig_of(m), m, replay)
+        elif f["kind"] == "diff":
+            corr_ok = False
+            v.broken(f"correspondence ({layer_name} layer) for {prop}: model and implementation disagree", replay)
+        else:
+            corr_ok = False
+            v.broken("Lean driver could not process a record", replay)
+    return corr_ok
+
+
+TRAV_BUDGET = {"quick": 3200, "thorough": 200000}
+
+
+@register("C06")
+def check_C06(tier: str, seed: int) -> int:
+    v = fw.Verdict("C06", tier, seed, "proof")
+    ps = fw.ProofStatus("C06", ["Properties.C06"])
+    tl = layers.trav_layer(seed, TRAV_BUDGET[tier])
+    ok1 = use_simple_layer(v, "C06", tl, "trav", ["C06"])
+    n_hist, steps = HIST_BUDGET[tier]
+    hl = layers.hist_layer(seed, n_hist, steps)
+    ok2 = use_hist_layer(v, "C06", hl, ["C06"])
+    if (not ps.ok or not ok1 or not ok2) and not v.violations:
+        big = layers.trav_layer(seed + 7919, TRAV_BUDGET[tier] * 8)
+        use_simple_layer(v, "C06", big, "trav", ["C06"])
+        v.notes.append(f"escalated search: {big['cases']} further traversals")
+    if not ps.ok:
+        v.broken(f"proof obligation for C06: {ps.failing_obligation()}", {"theorem_or_build": ps.failing_obligation()})
+    cov = {**fw.proof_coverage(ps), **hist_coverage(hl)}
+    cov["evaluations"] = tl["cases"] + hl["records"]
+    cov["distinct_nontrivial"] = len(tl["shapes"])
+    cov["rule"] = ("function-level: generated routes (1-6 links, degenerate/closed/disconnected shapes, 6 speeds, ground-truth speeds differing from the estimate, "
+                   "unknown links) × step lengths {1,7,30,60,90,3600} through the real routetraversal.traverse vs the Lean model, the C06 statements evaluated by Lean on the "
+                   "implementation's result; distinct_nontrivial = distinct (route shape, outcome, drove?, left-over?, has degenerate link, dt) tuples; plus the history layer "
+                   "(whole journeys on the haversine network, positions/routes/odometers compared after every phase)")
+    cov["samples"] = [tl["sample"]] + cov.get("samples", [])
+    cov["traversal_cases"] = tl["cases"]
+    cov["skipped_near_float_boundary"] = tl["skipped_near_boundary"] + hl["skipped_near_boundary"]
+    cov["trusted_base"] = cov["trusted_base"] + ["H3 geometry (point_along_link, great_circle_distance) and ground-truth link speeds are oracles: recorded from the implementation, universally quantified in the theorems"]
+    v.coverage = cov
+    v.assumptions = ["connected route estimates (router contract, C13)", "positive step length",
+                     "strict positional progress for sub-cell advances is NOT claimed (oracle hypothesis on point_along_link; known finding F16)"]
+    return v.finish()
